@@ -64,6 +64,7 @@ func (c *stubChain) SubscribeChainHeadEvent(ch chan<- events.ChainHeadEvent) eve
 // inside a StateDB are never touched concurrently.
 type wctx struct {
 	states map[chainState]*state.StateDB
+	lim    limits // limits of the pools this worker builds (zero value: the default limits)
 }
 
 var freeCtx = make(chan *wctx, 1024)
@@ -71,6 +72,7 @@ var freeCtx = make(chan *wctx, 1024)
 func getCtx() *wctx {
 	select {
 	case c := <-freeCtx:
+		c.lim = limits{}
 		return c
 	default:
 		return &wctx{states: map[chainState]*state.StateDB{}}
@@ -111,6 +113,7 @@ func (c *stubChain) set(cs chainState) {
 // world
 
 type world struct {
+	lim      limits
 	pool     *tx_pool.TxPool
 	chain    *stubChain
 	cs       chainState
@@ -118,24 +121,27 @@ type world struct {
 	restarts int
 }
 
-func poolConfig(journal string) tx_pool.TxPoolConfig {
+func poolConfig(journal string, lim limits) tx_pool.TxPoolConfig {
 	return tx_pool.TxPoolConfig{
 		Journal:      journal,
 		Rejournal:    1000 * time.Hour,
 		PriceLimit:   cfgPriceLimit,
 		PriceBump:    cfgPriceBump,
-		AccountSlots: cfgAccountSlots,
-		GlobalSlots:  cfgGlobalSlots,
-		AccountQueue: cfgAccountQueue,
-		GlobalQueue:  cfgGlobalQueue,
+		AccountSlots: uint64(lim.AS),
+		GlobalSlots:  uint64(lim.GS),
+		AccountQueue: uint64(lim.AQ),
+		GlobalQueue:  uint64(lim.GQ),
 		Lifetime:     100000 * time.Hour, // the eviction timer of the pool's loop never finds anything to evict
 	}
 }
 
 func newWorld(x *wctx) *world {
-	w := &world{chain: &stubChain{ctx: x}}
+	w := &world{chain: &stubChain{ctx: x}, lim: x.lim}
+	if w.lim == (limits{}) {
+		w.lim = defaultLimits
+	}
 	w.chain.set(w.cs)
-	w.pool = tx_pool.NewTxPool(poolConfig(""), configs.TestChainConfig, w.chain)
+	w.pool = tx_pool.NewTxPool(poolConfig("", w.lim), configs.TestChainConfig, w.chain)
 	return w
 }
 
@@ -162,6 +168,7 @@ var scratchRoot = func() string {
 
 // obs is what the checker sees of the pool after an operation.
 type obs struct {
+	lim limits // the limits the observed pool was built with
 	// public API
 	P, Q     [NS][]*token // Content(): pending / queued per sender, in the order returned
 	P2       [NS][]*token // Pending()
@@ -178,7 +185,7 @@ type obs struct {
 }
 
 func (w *world) observe() *obs {
-	o := &obs{cs: w.cs}
+	o := &obs{cs: w.cs, lim: w.lim}
 	conv := func(m map[common.Address]types.Transactions, out *[NS][]*token, what string) {
 		for a, txs := range m {
 			s, ok := addrIndex[a]
@@ -471,7 +478,7 @@ func (w *world) apply(o *opDef) (res opResult) {
 			return
 		}
 		w.pool.Stop()
-		w.pool = tx_pool.NewTxPool(poolConfig(path), configs.TestChainConfig, w.chain)
+		w.pool = tx_pool.NewTxPool(poolConfig(path, w.lim), configs.TestChainConfig, w.chain)
 		// the operator's price setting is configuration, not pool content: re-applied by the harness
 		w.pool.SetGasPrice(price)
 	}
